@@ -1,2 +1,4 @@
 SPECIFICATION TraceSpec
+CONSTANTS
+  Stratum = "all"
 CHECK_DEADLOCK FALSE
